@@ -255,9 +255,11 @@ class WebSocketWriter:
         """Close the websocket, sending the specified code and message."""
         if isinstance(message, str):
             message = message.encode("utf-8")
-        try:
+        # No data frame may follow Close: refuse new ones from now on and
+        # take the send lock, so that the compressed frames that hold it or
+        # already wait for it are written first.
+        self._closing = True
+        async with self._send_lock:
             await self.send_frame(
                 PACK_CLOSE_CODE(code) + message, opcode=WSMsgType.CLOSE
             )
-        finally:
-            self._closing = True
